@@ -1577,6 +1577,10 @@ def driver_source(specs, status, src_root):
             imports.append(f"import FinamModel.Translated.{spec['lean']}")
             me = ("(fun a b g1 g2 => Except.ok (((fromJ (argAt args 15)) : List ((Option Int × Option Int) × (Option Nat × Option Nat)))"
                   ".contains ((a, b), (g1, g2))))")
+            if spec["lean"] == "Input_exchange_info":
+                cases.append('  | "Input_exchange_info" => toJ (Tr.Input_exchange_info ' + " ".join(f"(fromJ (argAt args {i}))" for i in range(9))
+                             + ' (fun g h => ((fromJ (argAt args 9)) : List (Nat × Option Nat)).contains (g, h)) '
+                               '(fun a b => ((fromJ (argAt args 10)) : List (Nat × Nat)).contains (a, b)) ' + me.replace("15", "11") + ")")
             if spec["lean"] == "Output_get_info":
                 cases.append('  | "Output_get_info" => toJ (Tr.Output_get_info ' + " ".join(f"(fromJ (argAt args {i}))" for i in range(13))
                              + ' (fun g h => ((fromJ (argAt args 13)) : List (Nat × Option Nat)).contains (g, h)) '
